@@ -14,7 +14,7 @@ func init() {
 	register(&Property{
 		ID:          "C16",
 		Engines:     []string{"cfg", "lockset"},
-		Explanation: "Deadline bookkeeping (timing itself is wall-clock and not decidable): a timer is created only on the field-is-nil edge and stored in that field, otherwise Reset; every Stop clears the field; all under Conn.mux, and the field addresses flow only to setDeadline (O1); the duration is time.Until(t) of the caller's t and a zero t takes the clear edge (O2); each timer's callback closes with its own timeout error (O3); closeWithError stops and clears both timers in the critical section that sets closed (O4); Write/Writev stop and clear the write timer on the queue-empty edge before unlocking (O5); the keep-alive renewal sites exist and use time.Now().Add(KeepaliveTime) (O6). DialAsyncTimeout arms the dial timer before the connection is registered with its poller (O7). The dial completion clears the dial timer before the user's callback (O8). The dial timer is armed only for a pending connect (O11).",
+		Explanation: "Deadline bookkeeping (timing itself is wall-clock and not decidable): a timer is created only on the field-is-nil edge and stored in that field, otherwise Reset; every Stop clears the field; all under Conn.mux, and the field addresses flow only to setDeadline (O1); the duration is time.Until(t) of the caller's t and a zero t takes the clear edge (O2); each timer's callback closes with its own timeout error (O3); closeWithError stops and clears both timers in the critical section that sets closed (O4); Write/Writev stop and clear the write timer on the queue-empty edge before unlocking (O5); the keep-alive renewal sites exist and use time.Now().Add(KeepaliveTime) (O6). DialAsyncTimeout arms the dial timer before the connection is registered with its poller (O7). The dial completion clears the dial timer before the user's callback (O8). The dial timer is armed only for a pending connect (O11). Handshake deadline cleared (O12); timer sites independent of the queue (O13); ClientConn.onResponse deadlines (O14); renewal on every message (O15).",
 		NotCovered:  "timing; the race between a firing timer and Reset; the HTTP client's per-request deadlines (ClientConn.onResponse)",
 		Run:         runC16,
 	})
